@@ -134,23 +134,32 @@ static bool handle_ffi_req(int in_fd, uint32_t payload_len) {
         cop_send(STDOUT_FILENO, COP_MSG_FFI_ERROR, error_msg, err_len);
     } else {
         /* Serialize and send result.
-         * Use a small stack buffer for simple values, dynamically
-         * allocate for large results (arrays, deeply nested structs). */
+         * Use a small stack buffer for simple values; larger results (long
+         * strings, arrays) get a heap buffer sized from the value itself. */
         uint8_t stack_buf[4096];
-        uint32_t result_len = cop_serialize_value(&result, stack_buf, sizeof(stack_buf));
-        if (result_len > 0) {
-            cop_send(STDOUT_FILENO, COP_MSG_FFI_RESULT, stack_buf, result_len);
+        uint64_t need = cop_value_size(&result);
+        if (need > COP_MAX_PAYLOAD) {
+            cop_send(STDOUT_FILENO, COP_MSG_FFI_ERROR,
+                     "result too large", 16);
         } else {
-            /* Stack buffer too small — retry with a larger heap buffer */
-            uint32_t big_size = 1024 * 1024;  /* 1 MB */
-            uint8_t *big_buf = malloc(big_size);
-            if (big_buf) {
-                result_len = cop_serialize_value(&result, big_buf, big_size);
-                cop_send(STDOUT_FILENO, COP_MSG_FFI_RESULT, big_buf, result_len);
-                free(big_buf);
-            } else {
+            uint8_t *buf = stack_buf;
+            uint32_t buf_size = sizeof(stack_buf);
+            if (need > sizeof(stack_buf)) {
+                buf = malloc((size_t)need);
+                buf_size = (uint32_t)need;
+            }
+            if (!buf) {
                 cop_send(STDOUT_FILENO, COP_MSG_FFI_ERROR,
                          "OOM serializing result", 22);
+            } else {
+                uint32_t result_len = cop_serialize_value(&result, buf, buf_size);
+                if (result_len > 0) {
+                    cop_send(STDOUT_FILENO, COP_MSG_FFI_RESULT, buf, result_len);
+                } else {
+                    cop_send(STDOUT_FILENO, COP_MSG_FFI_ERROR,
+                             "failed to serialize result", 26);
+                }
+                if (buf != stack_buf) free(buf);
             }
         }
         vm_release(&g_heap, result);
